@@ -501,10 +501,12 @@ void formatState(std::ostream& s, const BitVectorState<Config>& state, unsigned 
 					v |= 1;
 			}
 			if (!dropping || v != 0 || i+1 >= state.size()/4) {
-				if (allDefined)
-					s << v;
-				else
+				if (!allDefined)
 					s << 'X';
+				else if (v < 10) // one hexadecimal digit whatever the stream's number base is
+					s << (char)('0' + v);
+				else
+					s << (char)('A' + (v-10));
 				dropping = false;
 			}
 		}
